@@ -165,6 +165,22 @@ def _pin(v, lo, hi):
     return hi
 
 
+def octets(x):
+    """octet string -> python list of ints, element by element (keeps concrete octets concrete and cheap
+    under the symbolic engine; comparing long symbolic byte strings as a whole is slow)"""
+    n = len(x)
+    return [x[k] for k in range(n)]
+
+
+def eq_octets(a, b):
+    if len(a) != len(b):
+        return False
+    for x, y in zip(a, b):
+        if x != y:
+            return False
+    return True
+
+
 def tokenize(data):
     """split an octet string into tags (20.2.1); raises ValueError when it does not parse"""
     out = []
@@ -252,7 +268,7 @@ def parse_rpm_ack(payload):
         t = toks[i]
         if not (t.cls == 1 and t.num == 0 and t.end - t.start == 4):
             raise ValueError("object identifier expected")
-        oid = bytes(payload[t.start:t.end])
+        oid = list(payload[t.start:t.end])
         i += 1
         results = []
         if i < len(toks) and toks[i].cls == 2 and toks[i].num == 1:
@@ -274,7 +290,7 @@ def parse_rpm_ack(payload):
                 e = _group_end(toks, k)
                 if e >= j:
                     raise ValueError("unbalanced")
-                body = bytes(payload[t.start:toks[e].hstart])
+                body = list(payload[t.start:toks[e].hstart])
                 if t.num == 4:
                     results.append((pid, idx, 'value', body))
                 else:
